@@ -251,13 +251,14 @@ theorem pickVar_some {D : Doms} {v : Nat} (h : pickVar D = some v) :
 /-- `stop` is only set once a solution has been recorded (for `limit ≥ 1`) -/
 def StopOK (st : DfsState) : Prop := st.stop = true → st.sols ≠ []
 
-theorem backtrack_keeps {cs : List Con} {limit : Nat} (hl : 1 ≤ limit) :
+theorem backtrack_keeps {sel : Doms → Option Nat} {ord : Doms → Nat → List Int} {cs : List Con} {limit : Nat}
+    (hl : 1 ≤ limit) :
     ∀ (fuel : Nat) (D : Doms) (st : DfsState),
-      (StopOK st → StopOK (backtrack true cs limit fuel D st)) ∧
-      (st.sols ≠ [] → (backtrack true cs limit fuel D st).sols ≠ [])
-  | 0, _, st => by simp [backtrack]
+      (StopOK st → StopOK (backtrackG sel ord true cs limit fuel D st)) ∧
+      (st.sols ≠ [] → (backtrackG sel ord true cs limit fuel D st).sols ≠ [])
+  | 0, _, st => by simp [backtrackG]
   | fuel + 1, D, st => by
-    unfold backtrack
+    unfold backtrackG
     split
     · simp only
       split
@@ -276,11 +277,11 @@ theorem backtrack_keeps {cs : List Con} {limit : Nat} (hl : 1 ≤ limit) :
           (StopOK s → StopOK (if s.stop = true then s
             else match propagate true cs (totalSize D + 1) (dset D v [x]) with
               | none => s
-              | some D' => backtrack true cs limit fuel D' s)) ∧
+              | some D' => backtrackG sel ord true cs limit fuel D' s)) ∧
           (s.sols ≠ [] → (if s.stop = true then s
             else match propagate true cs (totalSize D + 1) (dset D v [x]) with
               | none => s
-              | some D' => backtrack true cs limit fuel D' s).sols ≠ []) := by
+              | some D' => backtrackG sel ord true cs limit fuel D' s).sols ≠ []) := by
         intro s x
         split
         · exact ⟨id, id⟩
@@ -309,16 +310,17 @@ theorem leaf_eq {a : Asg} {D : Doms} (h : Within a D) (hs : ∀ i, i < D.length 
     | [y], hm, _ => simpa using (List.mem_singleton.1 hm).symm
     | _ :: _ :: _, _, hlen => simp at hlen
 
-theorem backtrack_finds {a : Asg} {cs : List Con} {limit : Nat} (hl : 1 ≤ limit)
+theorem backtrack_finds {sel : Doms → Option Nat} {ord : Doms → Nat → List Int} (hsel : SelOK sel)
+    (hord : OrdOK ord) {a : Asg} {cs : List Con} {limit : Nat} (hl : 1 ≤ limit)
     (hall : ∀ c ∈ cs, c.Scoped a.length ∧ Holds a c) :
     ∀ (fuel : Nat) (D : Doms) (st : DfsState), Within a D → NodupD D → totalSize D < fuel → StopOK st →
-      (backtrack true cs limit fuel D st).sols ≠ []
+      (backtrackG sel ord true cs limit fuel D st).sols ≠ []
   | 0, _, _, _, _, hf, _ => by omega
   | fuel + 1, D, st, hw, hn, hf, hst => by
-    unfold backtrack
+    unfold backtrackG
     split
     · next hp =>
-      have hleaf := leaf_eq hw (pickVar_none hp)
+      have hleaf := leaf_eq hw ((hsel D).1 hp)
       simp only [hleaf]
       have hchk : cs.all (check a) = true :=
         List.all_eq_true.2 fun c hc => (check_iff a c).2 (hall c hc).2
@@ -328,8 +330,8 @@ theorem backtrack_finds {a : Asg} {cs : List Con} {limit : Nat} (hl : 1 ≤ limi
         intro he; rw [he] at hc; simp at hc
       · simp
     · next v hp =>
-      have hv := pickVar_some hp
-      have hmem : val a v ∈ dget D v := hw.2 v hv.1
+      have hv := (hsel D).2 v hp
+      have hmem : val a v ∈ ord D v := (hord D v _).2 (hw.2 v hv.1)
       obtain ⟨l1, l2, hsplit⟩ := List.append_of_mem hmem
       rw [hsplit, List.foldl_append, List.foldl_cons]
       -- the state before the branch `x = a[v]`
@@ -337,7 +339,7 @@ theorem backtrack_finds {a : Asg} {cs : List Con} {limit : Nat} (hl : 1 ≤ limi
         show StopOK (if s.stop = true then s
             else match propagate true cs (totalSize D + 1) (dset D v [x]) with
               | none => s
-              | some D' => backtrack true cs limit fuel D' s) from by
+              | some D' => backtrackG sel ord true cs limit fuel D' s) from by
           split
           · exact hs
           · split
@@ -347,7 +349,7 @@ theorem backtrack_finds {a : Asg} {cs : List Con} {limit : Nat} (hl : 1 ≤ limi
           if st.stop = true then st
           else match propagate true cs (totalSize D + 1) (dset D v [x]) with
             | none => st
-            | some D' => backtrack true cs limit fuel D' st) st) :=
+            | some D' => backtrackG sel ord true cs limit fuel D' st) st) :=
         foldl_inv (P := StopOK) l1 st hst fun s x _ hs => hk s x hs
       -- the branch itself yields a solution
       apply foldl_inv (P := fun s : DfsState => s.sols ≠ []) l2
@@ -365,7 +367,7 @@ theorem backtrack_finds {a : Asg} {cs : List Con} {limit : Nat} (hl : 1 ≤ limi
             have := hv.2
             simp only [List.length_singleton] at *
             omega
-          exact backtrack_finds hl hall fuel D' _ hw'' h2.1 (by omega) hs1
+          exact backtrack_finds hsel hord hl hall fuel D' _ hw'' h2.1 (by omega) hs1
       · intro s x _ hs
         split
         · exact hs
@@ -413,5 +415,144 @@ theorem initDoms_within {a : Asg} {vars : List VarDecl} (ha : InDom a vars) (hin
         ⟨by simp, List.length_pos_of_mem hin⟩) hE.1.2).1
     · rw [List.mem_singleton.1 hy]; exact hE.2.2 h.1 h.2 hin
   · exact hE
+
+/-! ### the search enumerates every solution unless it stops at the limit -/
+
+/-- `stop` means the limit was reached -/
+def StopLen (limit : Nat) (st : DfsState) : Prop := st.stop = true → limit ≤ st.sols.length
+
+theorem foldl_stopped {α} (f : DfsState → α → DfsState) (hf : ∀ s x, s.stop = true → f s x = s) :
+    ∀ (l : List α) (s : DfsState), s.stop = true → l.foldl f s = s
+  | [], _, _ => rfl
+  | x :: l, s, h => by rw [List.foldl_cons, hf s x h]; exact foldl_stopped f hf l s h
+
+theorem backtrack_mono {sel : Doms → Option Nat} {ord : Doms → Nat → List Int} {cs : List Con} {limit : Nat} :
+    ∀ (fuel : Nat) (D : Doms) (st : DfsState),
+      (∀ b ∈ st.sols, b ∈ (backtrackG sel ord true cs limit fuel D st).sols) ∧
+      (StopLen limit st → StopLen limit (backtrackG sel ord true cs limit fuel D st)) ∧
+      (st.sols.Nodup → (backtrackG sel ord true cs limit fuel D st).sols.Nodup)
+  | 0, _, st => by simp [backtrackG]
+  | fuel + 1, D, st => by
+    unfold backtrackG
+    split
+    · simp only
+      split
+      · exact ⟨fun _ h => h, id, id⟩
+      · refine ⟨fun b hb => ?_, fun _ hstop => ?_, fun hn => ?_⟩
+        · simp only
+          split
+          · exact hb
+          · exact List.mem_append_left _ hb
+        · simpa using hstop
+        · simp only
+          split
+          · exact hn
+          · next hc =>
+            have hnc : (D.map fun d => d.headD 0) ∉ st.sols := by
+              intro hm; apply hc
+              simp only [Bool.true_and, List.contains_iff_mem]; exact hm
+            exact List.nodup_append.2 ⟨hn, by simp, by
+              intro x hx y hy; rw [List.mem_singleton.1 hy]; rintro rfl; exact hnc hx⟩
+    · next v _ =>
+      have key : ∀ (s : DfsState) (x : Int),
+          (∀ b ∈ s.sols, b ∈ (if s.stop = true then s
+            else match propagate true cs (totalSize D + 1) (dset D v [x]) with
+              | none => s
+              | some D' => backtrackG sel ord true cs limit fuel D' s).sols) ∧
+          (StopLen limit s → StopLen limit (if s.stop = true then s
+            else match propagate true cs (totalSize D + 1) (dset D v [x]) with
+              | none => s
+              | some D' => backtrackG sel ord true cs limit fuel D' s)) ∧
+          (s.sols.Nodup → (if s.stop = true then s
+            else match propagate true cs (totalSize D + 1) (dset D v [x]) with
+              | none => s
+              | some D' => backtrackG sel ord true cs limit fuel D' s).sols.Nodup) := by
+        intro s x
+        split
+        · exact ⟨fun _ h => h, id, id⟩
+        · split
+          · exact ⟨fun _ h => h, id, id⟩
+          · exact backtrack_mono fuel _ s
+      refine ⟨fun b hb => ?_, fun h => ?_, fun h => ?_⟩
+      · exact foldl_inv (P := fun s : DfsState => b ∈ s.sols) _ st hb fun s x _ hs => (key s x).1 b hs
+      · exact foldl_inv (P := StopLen limit) _ st h fun s x _ hs => (key s x).2.1 hs
+      · exact foldl_inv (P := fun s : DfsState => s.sols.Nodup) _ st h fun s x _ hs => (key s x).2.2 hs
+
+theorem backtrack_covers {sel : Doms → Option Nat} {ord : Doms → Nat → List Int} (hsel : SelOK sel)
+    (hord : OrdOK ord) {a : Asg} {cs : List Con} {limit : Nat}
+    (hall : ∀ c ∈ cs, c.Scoped a.length ∧ Holds a c) :
+    ∀ (fuel : Nat) (D : Doms) (st : DfsState), Within a D → NodupD D → totalSize D < fuel →
+      a ∈ (backtrackG sel ord true cs limit fuel D st).sols ∨
+        (backtrackG sel ord true cs limit fuel D st).stop = true
+  | 0, _, _, _, _, hf => by omega
+  | fuel + 1, D, st, hw, hn, hf => by
+    unfold backtrackG
+    split
+    · next hp =>
+      have hleaf := leaf_eq hw ((hsel D).1 hp)
+      simp only [hleaf]
+      have hchk : cs.all (check a) = true :=
+        List.all_eq_true.2 fun c hc => (check_iff a c).2 (hall c hc).2
+      simp only [hchk, Bool.not_true, Bool.and_false, Bool.false_eq_true, if_false, Bool.true_and]
+      left
+      split
+      · next hc => simpa using hc
+      · simp
+    · next v hp =>
+      have hv := (hsel D).2 v hp
+      have hmem : val a v ∈ ord D v := (hord D v _).2 (hw.2 v hv.1)
+      obtain ⟨l1, l2, hsplit⟩ := List.append_of_mem hmem
+      rw [hsplit, List.foldl_append, List.foldl_cons]
+      have hstep : ∀ (s : DfsState) (x : Int), s.stop = true →
+          (if s.stop = true then s
+            else match propagate true cs (totalSize D + 1) (dset D v [x]) with
+              | none => s
+              | some D' => backtrackG sel ord true cs limit fuel D' s) = s := by
+        intro s x h; rw [if_pos h]
+      -- after the branch `x = a[v]`: found or stopped; both persist over the remaining values
+      have hrest : ∀ s : DfsState, (a ∈ s.sols ∨ s.stop = true) →
+          (a ∈ (l2.foldl (fun st x =>
+            if st.stop = true then st
+            else match propagate true cs (totalSize D + 1) (dset D v [x]) with
+              | none => st
+              | some D' => backtrackG sel ord true cs limit fuel D' st) s).sols ∨
+           (l2.foldl (fun st x =>
+            if st.stop = true then st
+            else match propagate true cs (totalSize D + 1) (dset D v [x]) with
+              | none => st
+              | some D' => backtrackG sel ord true cs limit fuel D' st) s).stop = true) := by
+        intro s hs
+        by_cases hst : s.stop = true
+        · rw [foldl_stopped _ hstep l2 s hst]; exact Or.inr hst
+        · rcases hs with hs | hs
+          · left
+            exact foldl_inv (P := fun s : DfsState => a ∈ s.sols) l2 s hs fun s' x _ hs' => by
+              split
+              · exact hs'
+              · split
+                · exact hs'
+                · exact (backtrack_mono fuel _ s').1 a hs'
+          · exact absurd hs hst
+      apply hrest
+      split
+      · next hstop => exact Or.inr hstop
+      · have hw' : Within a (dset D v [val a v]) := hw.dset fun _ => by simp
+        obtain ⟨D', hp', hw''⟩ := propagate_sound_aux hall (totalSize D + 1) _ hw'
+        rw [hp']
+        have hshr : Shr (dset D v [val a v]) D :=
+          Shr.dset fun _ => ⟨by simp, by have := hv.2; simp; omega⟩
+        have h1 := hshr hn
+        have h2 := propagate_shr _ _ hp' h1.1
+        have hlt : totalSize (dset D v [val a v]) < totalSize D := by
+          have := totalSize_dset D v [val a v] hv.1
+          have := hv.2
+          simp only [List.length_singleton] at *
+          omega
+        exact backtrack_covers hsel hord hall fuel D' _ hw'' h2.1 (by omega)
+
+theorem pickVar_selOK : SelOK pickVar :=
+  fun _ => ⟨fun h => pickVar_none h, fun _ h => pickVar_some h⟩
+
+theorem dget_ordOK : OrdOK (fun D v => dget D v) := fun _ _ _ => Iff.rfl
 
 end Solvor.Cp
